@@ -582,7 +582,7 @@ func doReplay(path, prop string) int {
 	var rp struct {
 		Property string `json:"property"`
 		Replay   struct {
-			History *History `json:"history"`
+			History *History  `json:"history"`
 			Conc    *concCase `json:"conc"`
 		} `json:"replay"`
 	}
